@@ -11,6 +11,7 @@ mod c02;
 mod c08;
 mod c09;
 mod c10;
+mod c12;
 mod c13;
 mod c14;
 mod c15;
@@ -52,6 +53,7 @@ fn main() {
         "C05" => { c10::run_c05(&mut r); c09::run_c09(&mut r) }
         "C11" => c09::run_c11(&mut r),
         "C10" => c10::run_c10(&mut r),
+        "C12" => c12::run(&mut r),
         "C13" => c13::run(&mut r),
         "C15" => c15::run(&mut r),
         _ => {}
